@@ -182,8 +182,45 @@ def repr_all_dicts(check, tier):
     s.done()
 
 
+def repr_of_library_vocabulary(check, tier):
+    """values built through the public constructors from the library's OWN vocabulary, read from the live tables: every style / colour name
+    the library knows (positional and keyword), every SGR parameter 0..110 parsed from text - whatever formatting the library is able to
+    put on a character, repr must be able to spell in the fmtfuncs namespace"""
+    from curtsies import fmtfuncs, termformatconstants as TC
+    import curtsies.formatstring as FS
+    ns = {k: getattr(fmtfuncs, k) for k in dir(fmtfuncs) if not k.startswith("_")}
+    shown = lambda at: tuple(sorted((k, v) for k, v in at if v))
+    s = Suite(check, "C19.repr_vocabulary", "eval(repr(f)) for f = fmtstr('x', name) for every name in the live STYLES / FG_COLORS / BG_COLORS tables and "
+              "every key of the rendering tables, fmtstr('x', **{style: True}), and fmtstr('a ESC[<n>m b ESC[0m c') for n = 0..110: same "
+              "characters, same displayed formatting", bound="names of the live tables + 111 SGR parameters")
+    vals = []
+    names = list(TC.STYLES) + list(TC.FG_COLORS) + ["on_" + c for c in TC.BG_COLORS] + list(FS.one_arg_xforms)
+    for nm in dict.fromkeys(names):
+        vals.append((f"fmtstr('x', {nm!r})", lambda nm=nm: FS.fmtstr("x", nm)))
+        if nm in TC.STYLES or nm in FS.one_arg_xforms:
+            vals.append((f"fmtstr('x', {nm}=True)", lambda nm=nm: FS.fmtstr("x", **{nm: True})))
+            vals.append((f"FmtStr(Chunk('x', {{{nm!r}: True}}))", lambda nm=nm: FmtStr(Chunk("x", {nm: True}))))
+    for n in range(0, 111):
+        vals.append((f"fmtstr('a\\x1b[{n}mb\\x1b[0mc')", lambda n=n: FS.fmtstr("a\x1b[%dmb\x1b[0mc" % n)))
+    for label, mkv in vals:
+        s.case(label, sample=label)
+        try:
+            f = mkv()
+        except Exception:      # noqa: BLE001  (a name the constructor does not accept: nothing to spell)
+            continue
+        try:
+            r = eval(repr(f), dict(ns))
+            r = FmtStr(Chunk(r)) if isinstance(r, str) else r
+            if [(c, shown(a)) for c, a in cells(r)] != [(c, shown(a)) for c, a in cells(f)]:
+                s.fail("C19.repr", dict(value=label, runs=str(f.chunks), repr=repr(f), escape_in_formatted_run=False), f"evaluates to {r.chunks}")
+        except Exception as e:      # noqa: BLE001
+            s.fail("C19.repr", dict(value=label, runs=str(f.chunks), repr=repr(f), escape_in_formatted_run=False), f"does not evaluate: {type(e).__name__}: {e}")
+    s.done()
+
+
 def run(check, tier, seed):
     repr_all_dicts(check, tier)
+    repr_of_library_vocabulary(check, tier)
     long_inputs(check, tier)
     for c in CONTRACTS:
         verify(c, tier, check)
